@@ -92,6 +92,11 @@ impl CgCtx {
         self.inlined_states.len()
     }
 
+    #[cfg(lexgen_verif)]
+    pub fn verif_inlined(&self) -> String {
+        crate::verif::sorted_join(self.inlined_states.iter().map(|s| s.verif_usize()))
+    }
+
     pub fn token_type(&self) -> &syn::Type {
         &self.token_type
     }
